@@ -104,6 +104,26 @@ def rule_all_or_nothing(ctx):
         return
     f, c = sites[0]
     T = ctx.T(f)
+    APPLY = VA + "::update"
+    if f.kind == "closure" and c["t"]["args"] and (lambda r: r[0] == "param" and r[1] >= 2)(chain(T.operand(c["t"]["args"][0]))[0]):
+        # higher-order form: the batch is applied by a closure to the value it is *given*; the function that owns the lock
+        # hands it `&mut <copy>` through FnOnce::call_once. The obligations move to that call.
+        host = ctx.F.body_of(ctx.fn(VAW + "::update"))
+        Th = ctx.T(host)
+        hc = [x for x in Th.calls() if x["q"].rsplit("::", 1)[-1] in ("call_once", "call_mut", "call") and "ops::function" in x["q"] or x["q"] in ("std::ops::FnOnce::call_once", "std::ops::FnMut::call_mut", "std::ops::Fn::call")]
+        if len(hc) == 1:
+            f, c, T = host, hc[0], Th
+            APPLY = c["q"]
+            # the receiver is the first element of the argument tuple
+            tup = c["t"]["args"][1] if len(c["t"]["args"]) > 1 else None
+            tl = (tup.get("m") or tup.get("c")) if tup is not None else None
+            sd = T.single_def(tl["l"]) if tl is not None and not tl.get("pr") else None
+            if sd and sd[0] == "s" and f.blocks[sd[1]]["s"][sd[2]]["r"]["k"] == "agg" and f.blocks[sd[1]]["s"][sd[2]]["r"].get("ops"):
+                c = dict(c)
+                c["t"] = dict(c["t"])
+                c["t"]["args"] = [f.blocks[sd[1]]["s"][sd[2]]["r"]["ops"][0]]
+        # otherwise the closure is handed to code that applies it to a value this rule cannot see being cloned (e.g. a
+        # watch's send_if_modified, which runs it on the live value): decided below as "not a private clone"
     cfg = ctx.cfg(f)
     # receiver is a local that was produced by Clone::clone
     recv = c["t"]["args"][0]
@@ -120,24 +140,41 @@ def rule_all_or_nothing(ctx):
                 l = r["p"]["l"]
         defs = T.defs.get(l, [])
         decls = []
+        for _ in range(8):
+            # a value moved whole from another local, or a (re)borrow `&mut *x` / `&mut x` of it (the argument tuple and
+            # parameters of a spliced helper)
+            if len(defs) == 1 and defs[0][0] == "s":
+                r0 = f.blocks[defs[0][1]]["s"][defs[0][2]]["r"]
+                src = None
+                if r0["k"] == "use":
+                    src = r0["o"].get("m") or r0["o"].get("c")
+                    if src is not None and src.get("pr"):
+                        src = None
+                elif r0["k"] == "ref" and r0["p"].get("pr", []) in ([], ["*"]):
+                    src = r0["p"]
+                if src is not None:
+                    l = src["l"]
+                    defs = T.defs.get(l, [])
+                    continue
+            break
         for d in defs:
             if d[0] == "c":
                 decls.append(f.callee(f.blocks[d[1]]["t"])[0].qname)
             elif d[0] == "s":
                 decls.append("stmt")
-        okc = decls == ["std::clone::Clone::clone"] and f.locals[l].s == VA
+        okc = decls == ["std::clone::Clone::clone"] and f.locals[l].s.replace("&mut ", "").replace("&", "") == VA
         desc = "local _%d (%s) defined by %s" % (l, f.locals[l].s.split("::")[-1], decls)
     ctx.ob(R, "batch applied to a private clone", okc, "the batch is applied to a local ValidatorAddrs produced by Clone::clone of the current value" if okc else
            "the batch is applied to %s - not a private clone of the address book, so a rejected batch can leave earlier entries stored" % desc, f.loc(c["t"].get("ln")))
     pubs = [x for x in T.calls() if x["q"].endswith("::send_replace")]
     ctx.floor(R, "publish sites", len(pubs), 1)
-    edges = Q.success_edges(ctx, f, lambda b: b[0] == "call" and b[1] == VA + "::update")
+    edges = Q.success_edges(ctx, f, lambda b: b[0] == "call" and b[1] == APPLY)
 
     def a_changed(t):
-        if t[0] == "try" and t[1][0] == "call" and t[1][1] == VA + "::update":
+        if t[0] == "try" and t[1][0] == "call" and t[1][1] == APPLY:
             return True
         # the Ok payload of an explicit match on the result
-        return t[0] == "field" and t[2] == "0" and t[1][0] == "downcast" and t[1][2] == "Ok" and t[1][1][0] == "call" and t[1][1][1] == VA + "::update"
+        return t[0] == "field" and t[2] == "0" and t[1][0] == "downcast" and t[1][2] == "Ok" and t[1][1][0] == "call" and t[1][1][1] == APPLY
     W = Walker(ctx, f, [Atom("changed", "bool", a_changed, [True, False])])
     for p in pubs:
         ok1 = bool(edges) and cfg.must_pass(p["bb"], edges)
@@ -218,10 +255,22 @@ def rule_writers(ctx):
                     writers.add(root_fn(f).qname)
     allowed = {VA + "::update", VAW + "::announce"}
     ctx.ob(R, "writers", writers == allowed, "the address map is mutated only by %s" % sorted(w.split("::")[-2] + "::" + w.split("::")[-1] for w in writers) if writers == allowed else "address map writers: %s" % sorted(writers))
-    f = ctx.body(VAW + "::announce")
+    f0 = ctx.body(VAW + "::announce")
+    f = f0
+    keyp = common.pnames(f0, "SecretKey")
+    for g in [f0] + common.family(ctx, f0, ("closure", "coroutine")):
+        if any(c["q"].endswith("SecretKey::sign_msg") for c in ctx.T(g).calls()):
+            f = g       # the signing may sit in a closure handed to a copy-modify-publish helper
+            break
     T = ctx.T(f)
     signs = [T.args_of(c) for c in T.calls() if c["q"].endswith("SecretKey::sign_msg")]
-    ok = bool(signs) and all(common.is_p(a[0], common.pnames(f, "SecretKey")) for a in signs)
+
+    def is_key(t):
+        if common.is_p(t, keyp) or common.is_p(t, common.pnames(f, "SecretKey")):
+            return True
+        r = chain(t)[0]
+        return f is not f0 and r[0] == "upvar" and any(r[1] == (k[2] if len(k) > 2 else k[1]) or r[1] in str(k) for k in keyp)
+    ok = bool(signs) and all(is_key(a[0]) for a in signs)
     ctx.ob(R, "announce signs with the node's key", ok, "announce signs the NetAddress with the key argument" if ok else "announce signing key: %s" % [show(a[0]) for a in signs], f.loc())
     okv = False
     for a in signs:
@@ -277,7 +326,8 @@ def rule_handler(ctx):
                 sites.append((f, T.args_of(c)))
     ctx.floor(R, "callers of ValidatorAddrsWatch::update", len(sites), 1)
     for f, a in sites:
-        ok = any(x[0] == "call" and x[1].endswith("Network::validator_schedule") for x in subterms(a[1])) and chain(a[2])[1][-1:] == ["0"]
+        ok = any(x[0] == "call" and x[1].endswith("Network::validator_schedule") for x in subterms(a[1])) and \
+            (chain(a[2])[1][-1:] == ["0"] or any(x[0] == "field" and x[2] == "0" and x[1][0] in ("param", "upvar", "var") for x in subterms(a[2])))
         ctx.ob(R, "handler arguments in %s" % root_fn(f).qname.split("::")[-1], ok, "update(&self.net.validator_schedule()?, &req.0)" if ok else "update called with (%s, %s)" % (show(a[1])[:80], show(a[2])[:40]), f.loc())
         # the batch a peer sent is applied whole, by one call: the duplicate-key check and the all-or-nothing publish of
         # ValidatorAddrsWatch::update cover exactly what is handed to one call
@@ -300,6 +350,55 @@ def rule_handler(ctx):
         ctx.ob(R, "whole batch in one call (%s)" % root_fn(f).qname.split("::")[-1], okw, "the request's announcements are handed to update() whole, once" if okw else
                ("the received batch is applied piecewise (%s): a rejected request has already changed the address book, and a key repeated across pieces is not detected" %
                 ("update() is called in a loop" if in_loop else "%d update() calls" % len(ubbs) if len(ubbs) != 1 else "argument %s is not the whole request" % show(a[2])[:60])), f.loc())
+
+
+def _addr_from_book(ctx, t, is_peer, depth):
+    """(good, fld): the Option<SocketAddr> term t is validator_addrs.get(<book>, <peer>) mapped to .msg.addr - as a
+    map chain, as Some(<entry>.msg.addr) in a match arm, or through a small helper function doing one of these."""
+    from engine.guards import Inliner
+
+    def book_entry(x):
+        if not (x[0] == "call" and x[1].endswith("ValidatorAddrs::get") and len(x[2]) == 2 and is_peer(x[2][1])):
+            return False
+        return any(y[0] == "call" and (y[1].endswith("sync::wait_for") or "watch::Receiver::borrow" in y[1] or y[1].endswith("::subscribe")) for y in subterms(x[2][0])) or x[2][0][0] in ("param", "upvar", "var")
+    u = t
+    while u[0] == "call" and u[1] in ("std::option::Option::copied", "std::option::Option::cloned") and u[2]:
+        u = u[2][0]
+    if u[0] == "call" and u[1] == "std::option::Option::map" and len(u[2]) == 2 and book_entry(u[2][0]) and u[2][1][0] == "closure":
+        h = ctx.F.by_qname.get(u[2][1][1], [None])[0]
+        rt = Inliner(ctx).ret_term(h) if h is not None else None
+        return True, rt is not None and chain(rt)[1][-2:] == ["msg", "addr"]
+    if u[0] == "agg" and u[2] == "Some" and u[3]:
+        pay = u[3][0][1]
+        while pay[0] == "call" and pay[1] in ("std::clone::Clone::clone",) and pay[2]:
+            pay = pay[2][0]
+        return any(book_entry(x) for x in subterms(pay)), chain(pay)[1][-2:] == ["msg", "addr"]
+    if u[0] == "call" and u[1].startswith("zksync_") and depth < 2:
+        # a helper: every value it returns is None or the book entry of the key it is given
+        hs = ctx.F.by_qname.get(u[1]) or []
+        if hs and any(is_peer(a) for a in u[2]):
+            h = hs[0]
+            kpos = [i for i, a in enumerate(u[2]) if is_peer(a)][0] + 1
+            Th = ctx.T(h)
+            RL = Q.ret_locals(h)
+            res = []
+            for b in h.blocks:
+                for st in b["s"]:
+                    if st["k"] == "assign" and not st["p"].get("pr") and st["p"]["l"] in RL:
+                        if st["r"]["k"] == "use" and (st["r"]["o"].get("m") or st["r"]["o"].get("c") or {}).get("l") in RL and not (st["r"]["o"].get("m") or st["r"]["o"].get("c")).get("pr"):
+                            continue
+                        v = Th.rvalue(st["r"])
+                        if v[0] == "agg" and v[2] == "None":
+                            continue
+                        res.append(_addr_from_book(ctx, v, lambda k: k[0] == "param" and k[1] == kpos, depth + 1))
+                tt = b["t"]
+                if tt["k"] == "call" and not tt["dest"].get("pr") and tt["dest"]["l"] in RL:
+                    if "decl" in tt["f"] and h.callee(tt)[0].qname == "std::ops::FromResidual::from_residual":
+                        continue
+                    res.append(_addr_from_book(ctx, Th.call_term(tt), lambda k: k[0] == "param" and k[1] == kpos, depth + 1))
+            if res:
+                return all(g for g, _ in res), all(f2 for _, f2 in res)
+    return False, False
 
 
 def rule_dial_address(ctx):
@@ -340,29 +439,13 @@ def rule_dial_address(ctx):
         for g, t in writes:
             if t[0] == "agg" and t[2] == "None":
                 continue
-            def book_entry(x):
-                """x = validator_addrs.get(<book>, <the dialled peer>)"""
-                if not (x[0] == "call" and x[1].endswith("ValidatorAddrs::get") and len(x[2]) == 2 and x[2][1] == peer_t):
-                    return False
-                return any(y[0] == "call" and (y[1].endswith("sync::wait_for") or "watch::Receiver::borrow" in y[1] or y[1].endswith("::subscribe")) for y in subterms(x[2][0])) or x[2][0][0] in ("param", "upvar")
-            u = t
-            while u[0] == "call" and u[1] in ("std::option::Option::copied", "std::option::Option::cloned") and u[2]:
-                u = u[2][0]
-            good = fld = False
-            if u[0] == "call" and u[1] == "std::option::Option::map" and len(u[2]) == 2 and book_entry(u[2][0]) and u[2][1][0] == "closure":
-                good = True
-                h = ctx.F.by_qname.get(u[2][1][1], [None])[0]
-                if h is not None:
-                    from engine.guards import Inliner
-                    rt = Inliner(ctx).ret_term(h)
-                    fld = rt is not None and chain(rt)[1][-2:] == ["msg", "addr"]
-            elif u[0] == "agg" and u[2] == "Some" and u[3]:
-                # match form: Some(<entry>.msg.addr) with <entry> the payload of the lookup
-                pay = u[3][0][1]
-                while pay[0] == "call" and pay[1] in ("std::clone::Clone::clone",) and pay[2]:
-                    pay = pay[2][0]
-                fld = chain(pay)[1][-2:] == ["msg", "addr"]
-                good = any(book_entry(x) for x in subterms(pay))
+            if t[0] == "var":
+                # the return place of a spliced helper: every non-None value it is given
+                vs = [v for v in common.value_terms(g, ctx.T(g), t) if v is not t and v[0] != "var"]
+                rs = [_addr_from_book(ctx, v, lambda k: k == peer_t, 0) for v in vs]
+                good, fld = (bool(rs) and all(a for a, _ in rs)), (bool(rs) and all(b for _, b in rs))
+            else:
+                good, fld = _addr_from_book(ctx, t, lambda k: k == peer_t, 0)
             if not (good and fld):
                 ok = False
                 why.append(show(t)[:120])
